@@ -18,6 +18,9 @@ impl AutoWakeupConfig {
     pub fn get_config1(&self) -> AutoWakeup1 {
         self.auto_wakeup1
     }
+    pub fn set_config1(&mut self, auto_wakeup1: AutoWakeup1) {
+        self.auto_wakeup1 = auto_wakeup1;
+    }
 }
 
 /// Configure Auto Wake-up settings
